@@ -8,7 +8,7 @@ FN_ARGS = {
     "european_binary_vega": "stvck", "european_binary_theta": "stvck",
     "american_binary_price": "smtv", "american_binary_delta": "smtvk", "american_binary_gamma": "smtvk",
     "american_binary_vega": "smtvk", "american_binary_theta": "smtvk",
-    "lookback_price": "smtvk",
+    "lookback_price": "smtvk", "lookback_delta": "smtvk", "lookback_gamma": "smtvk", "lookback_vega": "smtvk", "lookback_theta": "smtvk",
 }
 
 
